@@ -10,6 +10,7 @@ from .core import TransError, body_nodoc, find_class, find_func, parse_file, wal
 SS = "xeofs/single/base_model_single_set.py"
 CS = "xeofs/cross/base_model_cross_set.py"
 CP = "xeofs/cross/cpcca.py"
+ST = "xeofs/preprocessing/stacker.py"
 GROUPS = {
     "C01": [(SS, "BaseModelSingleSet", "components"), (SS, "BaseModelSingleSet", "scores"), ("xeofs/single/eof.py", "EOF", "explained_variance"),
             ("xeofs/single/eof.py", "EOF", "explained_variance_ratio"), ("xeofs/single/eof.py", "EOF", "singular_values"),
@@ -33,6 +34,18 @@ GROUPS = {
     "C19": [("xeofs/single/opa.py", "OPA", "components"), ("xeofs/single/opa.py", "OPA", "scores"), ("xeofs/single/opa.py", "OPA", "decorrelation_time"),
             ("xeofs/single/opa.py", "OPA", "filter_patterns")],
     "C20": [("xeofs/validation/bootstrapper.py", "_BaseBootstrapper", "__init__"), ("xeofs/validation/bootstrapper.py", "EOFBootstrapper", "__init__")],
+    "C02": [(ST, "Stacker", f) for f in ("_stack", "_unstack_to_dataarray", "_unstack_to_dataset_data", "_unstack_to_dataset_components", "_restore_squeezed_dims",
+                                          "_restore_unit_feature_dims", "_reorder_dims", "_match_variables", "fit", "transform", "inverse_transform_data",
+                                          "inverse_transform_components", "inverse_transform_scores", "inverse_transform_scores_unseen")],
+    "C13": [("xeofs/base_model.py", "BaseModel", f) for f in ("serialize", "deserialize", "_deserialize_attrs", "get_serialization_attrs")] +
+           [("xeofs/preprocessing/transformer.py", "Transformer", f) for f in ("_serialize_data", "serialize", "_serialize", "_deserialize_data_node", "deserialize", "_deserialize")] +
+           [("xeofs/data_container/data_container.py", "DataContainer", f) for f in ("serialize", "deserialize", "add", "set_attrs")],
+    "C14": [("xeofs/single/eof.py", "ComplexEOF", f) for f in ("components_amplitude", "components_phase", "scores_amplitude", "scores_phase")] +
+           [("xeofs/data_container/data_container.py", "DataContainer", f) for f in ("add", "__setitem__", "__getitem__", "compute")] +
+           [("xeofs/base_model.py", "BaseModel", f) for f in ("compute", "_post_compute", "get_params")],
+    "C10": [("xeofs/multi/cca.py", "CCABaseModel", f) for f in ("fit", "_process_data", "_apply_pca")] +
+           [("xeofs/multi/cca.py", "CCA", f) for f in ("_fit_algorithm", "_solve_gevp", "_apply_norm", "_D", "_transform", "transform")],
+    "C05": [("xeofs/multi/cca.py", "CCA", "_transform"), ("xeofs/multi/cca.py", "CCA", "transform"), (CS, "BaseModelCrossSet", "predict"), (CP, "CPCCA", "_predict_algorithm")],
 }
 
 
